@@ -271,10 +271,37 @@ let record_final = ref false
 let max_steps = 3000
 
 
+(* experiment (C09_INV=1): is the token invariant - every enabled id is reached from a pending id through effect-free
+   re-queue results - an invariant of ALL reachable states, not only of the idle ones? *)
+let check_tokens (sc : scen) (s : (cmap, cmap, req, dstate) qworld) =
+  let w = s.qw in
+  let step c = match p2_reconcile (oracle_for sc c false) w c with
+    | ([], RRequeueTx i) -> Some (CtlTx i) | ([], RRequeueProp k) -> Some (CtlProp k)
+    | (_, RRequeueTx i) when Sys.getenv_opt "C09_INV" = Some "2" -> Some (CtlTx i)
+    | (_, RRequeueProp k) when Sys.getenv_opt "C09_INV" = Some "2" -> Some (CtlProp k)
+    | _ -> None in
+  let rec closure seen = function
+    | [] -> seen
+    | c :: rest -> if List.mem c seen then closure seen rest
+      else closure (c :: seen) (match step c with Some c' -> c' :: rest | None -> rest) in
+  let cov = closure [] s.queue in
+  List.iter (fun c ->
+      if (match p2_reconcile (oracle_for sc c false) w c with ([], _) -> false | _ -> true) && not (List.mem c cov) then begin
+        stat "uncovered_enabled";
+        let key = "UNCOVERED " ^ family w c ^ " / " ^ describe w c in
+        match Hashtbl.find_opt shapes key with
+        | Some h -> h.count <- h.count + 1
+        | None -> Hashtbl.replace shapes key { count = 1; stranded = 0; best = []; state = summary_string w ^ " QUEUE " ^ String.concat "," (List.map sctrl s.queue); who = sctrl c }
+      end) (q_all_ctrls w);
+  stat "states_checked"
+
+let inv_on = Sys.getenv_opt "C09_INV" <> None
+
 let run_random (rng : Random.State.t) (sc : scen) =
   let s = ref q_init and env = ref sc.items and trace = ref [] and steps = ref 0 and go = ref true in
   while !go && !steps < max_steps do
     incr steps;
+    if inv_on then check_tokens sc !s;
     let qlen = List.length !s.queue in
     if !env <> [] && (qlen = 0 || Random.State.int rng 4 = 0) then begin
       if qlen = 0 then check_idle !s !trace;
